@@ -6,5 +6,6 @@ CONSTANTS
   Schemes = {"U"}
   Leaves = {"int"}
   Emit = TRUE
+  KeyMode = "plain"
 INVARIANTS PrintWitness
 CHECK_DEADLOCK FALSE
